@@ -923,3 +923,16 @@ PROPS["C16"]["claim"] += (" Round 3 of fnx: no domain monitor of the footnote mo
     "e2e_footnotes_all_filed: every Footnote ends as a child of the list; close discipline of the driver copy e2e_convertf_close_discipline), so C16 end to "
     "end holds for every document the composed model converts with no monitor left (e2e_convertf_no_footnote_monitor_outcome). Open on the model side: "
     "fuel (BlockNoLoopF, InlineNoLoopF), panic-freedom of the driver copy incl. the hard type assertion footnote.go:251 (ListKidsAreFootnotes stated).")
+
+# ---- session 4, e2e round 5: C08 / C09 at HTML level on the composed model ----
+PROPS["C08"]['claim'] += (" AT HTML LEVEL on the composed model (GM.Props.C08E2E, package e2e round 5): for every option set and every source D without '[' of the "
+    "lists-and-blank-lines class that converts, convertCore (quotePrefix D) = '<blockquote>' + LF + convertCore D + '</blockquote>' + LF "
+    "(convert_quote_prefix, _lists, _no_final_newline) - UNCONDITIONALLY when the leaves are raw blocks or their paragraphs / headings are plain "
+    "'good lines' (convert_quote_prefix_raw_leaves, convert_quote_prefix_good_lines, convert_quote_prefix_checked with decidable hypotheses), and for "
+    "arbitrary inline content given ONE named single-block hypothesis about the inline phase (InlineQuoteStep: the inline phase of a block commutes with "
+    "moving its segments; stated on related segment lists because 'depends only on the line values' is false - precendingCharacter reads the byte in "
+    "front of a line start; not proved in general). NoBracket is necessary: with '[' the statement is false of goldmark (recorded finding "
+    "bracket-span-limit-counts-container-markers).")
+PROPS["C09"]["claim"] += (" AT HTML LEVEL (GM.Props.C09E2E): for an empty first part, convertCore (LF + '# h' + LF + LF + b) = convertCore ('# h' + LF) ++ "
+    "convertCore b for every LF-free h and every b without '[' (heading_then_blocks_html; unconditional for plain-text content: "
+    "heading_then_blocks_html_good_lines, _checked; in general given the named inline hypothesis InlineMoveStep); a non-empty first part at HTML level is open.")
